@@ -9,12 +9,12 @@ import (
 // Used by the lex / parse / print suites and by several oracles.
 
 type progGen struct {
-	r        *rng
-	depth    int
-	layout   int  // 0 compact-ish, 1 spaced, 2 wild (newlines, comments)
-	semis    int  // 0 always ';', 1 newline-separated, 2 mixed
-	noASI    bool // avoid constructs whose meaning depends on ASI subtleties
-	idents   []string
+	r      *rng
+	depth  int
+	layout int  // 0 compact-ish, 1 spaced, 2 wild (newlines, comments)
+	semis  int  // 0 always ';', 1 newline-separated, 2 mixed
+	noASI  bool // avoid constructs whose meaning depends on ASI subtleties
+	idents []string
 }
 
 var identPool = []string{"a", "b", "c", "x", "y", "foo", "bar", "i", "n", "obj", "arr", "f", "g", "$v", "_t", "x1", "console", "log", "lets", "iff", "returns"}
